@@ -45,11 +45,14 @@ theorem fc_debit?_eq (b : Bank) (a : Addr) (c : Coin) :
 @[simp] theorem fc_debit_self (b : Bank) (a : Addr) (c : Coin) : debit b a c a c.denom = b a c.denom - c.amount := by
   simp [debit]
 
+/-- (`B` stands for `burnPart p.fee.amount`; it is a VARIABLE tied by `hB` so that no proof below ever has to compute with the
+128-bit decimal arithmetic inside `burnPart`) -/
 theorem fc_feeMsgs_native (self : Addr) (p : Params) (a : Nat) (hd : p.fee.denom = NATIVE) (ha : a ≠ 0)
-    (hfee : p.fee.amount ≤ a) :
+    (hfee : p.fee.amount ≤ a) (B : Nat) (hB : B = burnPart p.fee.amount) :
     feeMsgs self p [⟨NATIVE, a⟩] =
-      .ok [Msg.burn ⟨NATIVE, burnPart p.fee.amount⟩, Msg.fundPool self ⟨NATIVE, p.fee.amount - burnPart p.fee.amount⟩] := by
+      .ok [Msg.burn ⟨NATIVE, B⟩, Msg.fundPool self ⟨NATIVE, p.fee.amount - B⟩] := by
   have : ¬ a < p.fee.amount := by omega
+  subst hB
   simp [feeMsgs, hd, checkedFairBurn, mayPay, fairBurn, burnPart, this, ha, bind, Except.bind, pure, Except.pure]
 
 theorem fc_feeMsgs_other (self : Addr) (p : Params) (a : Nat) (hd : p.fee.denom ≠ NATIVE) (ha : a ≠ 0)
@@ -63,10 +66,6 @@ def bankNativeB (b : Bank) (s : Supply) (sender self : Addr) (a fee B : Nat) : B
   (credit (debit (debit (credit (debit b sender ⟨NATIVE, a⟩) self ⟨NATIVE, a⟩) self ⟨NATIVE, B⟩)
       self ⟨NATIVE, fee - B⟩) FAIRBURN_POOL ⟨NATIVE, fee - B⟩,
    fun d => if d = NATIVE then s d - B else s d)
-
-/-- bank after a native-fee create: payment to the factory, `burnPart fee` burned, the rest of the fee to the fair-burn pool -/
-def bankNative (b : Bank) (s : Supply) (sender self : Addr) (a fee : Nat) : Bank × Supply :=
-  bankNativeB b s sender self a fee (burnPart fee)
 
 /-- bank after a non-native-fee create: the whole payment passes through the factory to the launchpad DAO -/
 def bankOther (b : Bank) (s : Supply) (sender self : Addr) (d : Denom) (a : Nat) : Bank × Supply :=
@@ -88,8 +87,7 @@ theorem fc_exec_native (b : Bank) (s : Supply) (sender self : Addr) (a fee B : N
         simp only [] at this
         rw [this]; omega
       by_cases e3 : B = fee
-      · have e2 : fee - B = 0 := by omega
-        simp [ha, h1, e1, e2, e3, k1]
+      · simp [ha, h1, e3]
       · have e2 : fee - B ≠ 0 := by omega
         have k2 : fee - B ≤ debit (credit (debit b sender ⟨NATIVE, a⟩) self ⟨NATIVE, a⟩) self ⟨NATIVE, B⟩ self NATIVE := by
           have h := fc_debit_self (credit (debit b sender ⟨NATIVE, a⟩) self ⟨NATIVE, a⟩) self ⟨NATIVE, B⟩
@@ -101,13 +99,14 @@ theorem fc_exec_native (b : Bank) (s : Supply) (sender self : Addr) (a fee B : N
   · simp [ha, h1]
 
 theorem fc_bankStep_native (b : Bank) (s : Supply) (self : Addr) (p : Params) (m : CreateMsg) (a : Nat)
-    (hd : p.fee.denom = NATIVE) (hf : m.funds = [⟨NATIVE, a⟩]) (ha : a ≠ 0) (hfee : p.fee.amount ≤ a) :
+    (hd : p.fee.denom = NATIVE) (hf : m.funds = [⟨NATIVE, a⟩]) (ha : a ≠ 0) (hfee : p.fee.amount ≤ a)
+    (B : Nat) (hB : B = burnPart p.fee.amount) :
     bankStep b s self p m =
-      if a ≤ b m.sender NATIVE ∧ (burnPart p.fee.amount ≠ 0 ∧ burnPart p.fee.amount ≠ p.fee.amount)
-      then some (bankNative b s m.sender self a p.fee.amount) else none := by
-  unfold bankStep bankNative
-  rw [hf, fc_feeMsgs_native self p a hd ha hfee]
-  exact fc_exec_native b s m.sender self a p.fee.amount (burnPart p.fee.amount) ha hfee (fc_burnPart_le _)
+      if a ≤ b m.sender NATIVE ∧ (B ≠ 0 ∧ B ≠ p.fee.amount)
+      then some (bankNativeB b s m.sender self a p.fee.amount B) else none := by
+  unfold bankStep
+  rw [hf, fc_feeMsgs_native self p a hd ha hfee B hB]
+  exact fc_exec_native b s m.sender self a p.fee.amount B ha hfee (by rw [hB]; exact fc_burnPart_le _)
 
 theorem fc_bankStep_other (b : Bank) (s : Supply) (self : Addr) (p : Params) (m : CreateMsg) (a : Nat)
     (hd : p.fee.denom ≠ NATIVE) (hf : m.funds = [⟨p.fee.denom, a⟩]) (ha : a ≠ 0) (hfee : p.fee.amount ≤ a) :
@@ -229,7 +228,7 @@ theorem fc_pay (self : Addr) (p : Params) (funds : List Coin) :
         simp [payOk, mustPay, ha, hk]
       · simp [payOk, mustPay, ha, hk]
     · by_cases hn : p.fee.denom = NATIVE
-      · rw [hn, fc_feeMsgs_native self p a hn ha hfee]; rfl
+      · rw [hn, fc_feeMsgs_native self p a hn ha hfee _ rfl]; rfl
       · rw [fc_feeMsgs_other self p a hn ha hfee]; rfl
 
 theorem fc_sale (p : Params) (now : Nat) (m : CreateMsg) : saleOk p now m = true ↔ SaleWithin p now m := by
@@ -291,7 +290,7 @@ theorem fc_bank (w : World) (self : Addr) (p : Params) (m : CreateMsg) (a : Nat)
   unfold Funded
   by_cases hn : p.fee.denom = NATIVE
   · rw [hn] at hf
-    rw [fc_bankStep_native w.bal w.supply self p m a hn hf ha hfee, hn]
+    rw [fc_bankStep_native w.bal w.supply self p m a hn hf ha hfee _ rfl, hn]
     by_cases h : a ≤ w.bal m.sender NATIVE ∧ (burnPart p.fee.amount ≠ 0 ∧ burnPart p.fee.amount ≠ p.fee.amount)
     · rw [if_pos h]
       exact ⟨fun _ => ⟨h.1, fun _ => h.2⟩, fun _ => rfl⟩
@@ -506,19 +505,18 @@ theorem C08_post_fresh (w : World) (hw : ∀ c ∈ w.contracts, c.addr < 1000 + 
 paid)" -/
 
 /-- On success the factory emitted fee messages `msgs` (and nothing else that moves coins) with
-`fee ≤ Σ msgs ≤ paid`. Native fee: `msgs` = burn ⌊fee/2⌋ + fund the fair-burn pool with the rest, **sum = fee exactly**
-(`checked_fair_burn` burns `fee`, not the payment) — an overpayment `paid − fee` stays on the factory's account.
-Non-native fee: `msgs` = one send of the **whole payment** to the launchpad DAO. Open-edition: `paid = fee`. The bank and
-supply of the post-state are exactly `bankNative` / `bankOther`. -/
+`fee ≤ Σ msgs ≤ paid`. Native fee: `msgs` = burn `B` + fund the fair-burn pool with `fee − B`, where `B = burnPart fee`
+(whatever split `packages/sg1` prescribes), **sum = fee exactly** (`checked_fair_burn` burns `fee`, not the payment) — an
+overpayment `paid − fee` stays on the factory's account. Non-native fee: `msgs` = one send of the **whole payment** to the
+launchpad DAO. Open-edition: `paid = fee`. The bank and supply of the post-state are exactly `bankNativeB` / `bankOther`. -/
 theorem C08_fee_disposed (w : World) (self : Addr) (f : Factory) (m : CreateMsg) (w' : World)
-    (hf : w.factory? self = some f) (h : create w self m = .ok w') :
+    (hf : w.factory? self = some f) (h : create w self m = .ok w') (B : Nat) (hB : B = burnPart f.p.fee.amount) :
     ∃ a msgs, Paid f.p m.funds a ∧ feeMsgs self f.p m.funds = .ok msgs
       ∧ f.p.fee.amount ≤ sumAmounts msgs ∧ sumAmounts msgs ≤ a
       ∧ (f.p.fee.denom = NATIVE →
-          msgs = [Msg.burn ⟨NATIVE, burnPart f.p.fee.amount⟩,
-                  Msg.fundPool self ⟨NATIVE, f.p.fee.amount - burnPart f.p.fee.amount⟩]
+          msgs = [Msg.burn ⟨NATIVE, B⟩, Msg.fundPool self ⟨NATIVE, f.p.fee.amount - B⟩]
           ∧ sumAmounts msgs = f.p.fee.amount
-          ∧ (w'.bal, w'.supply) = bankNative w.bal w.supply m.sender self a f.p.fee.amount)
+          ∧ (w'.bal, w'.supply) = bankNativeB w.bal w.supply m.sender self a f.p.fee.amount B)
       ∧ (f.p.fee.denom ≠ NATIVE →
           msgs = [Msg.send LAUNCHPAD_DAO ⟨f.p.fee.denom, a⟩] ∧ sumAmounts msgs = a
           ∧ (w'.bal, w'.supply) = bankOther w.bal w.supply m.sender self f.p.fee.denom a) := by
@@ -527,14 +525,14 @@ theorem C08_fee_disposed (w : World) (self : Addr) (f : Factory) (m : CreateMsg)
   obtain ⟨hfu, ha, hfee, hoe⟩ := hp
   by_cases hn : f.p.fee.denom = NATIVE
   · have hfu' : m.funds = [⟨NATIVE, a⟩] := by rw [← hn]; exact hfu
-    have hb := fc_bankStep_native w.bal w.supply self f.p m a hn hfu' ha hfee
+    have hb := fc_bankStep_native w.bal w.supply self f.p m a hn hfu' ha hfee B hB
     rw [hbs] at hb
-    have hcond : a ≤ w.bal m.sender NATIVE ∧ (burnPart f.p.fee.amount ≠ 0 ∧ burnPart f.p.fee.amount ≠ f.p.fee.amount) :=
-      ⟨by rw [← hn]; exact hfund.1, hfund.2 hn⟩
-    have hble := fc_burnPart_le f.p.fee.amount
+    have hparts : B ≠ 0 ∧ B ≠ f.p.fee.amount := by rw [hB]; exact hfund.2 hn
+    have hcond : a ≤ w.bal m.sender NATIVE ∧ (B ≠ 0 ∧ B ≠ f.p.fee.amount) := ⟨by rw [← hn]; exact hfund.1, hparts⟩
+    have hble : B ≤ f.p.fee.amount := by rw [hB]; exact fc_burnPart_le _
     rw [if_pos hcond] at hb
-    have hbs' : bs = bankNative w.bal w.supply m.sender self a f.p.fee.amount := Option.some.inj hb
-    refine ⟨a, _, ⟨hfu, ha, hfee, hoe⟩, by rw [hfu', fc_feeMsgs_native self f.p a hn ha hfee], ?_, ?_, ?_, ?_⟩
+    have hbs' : bs = bankNativeB w.bal w.supply m.sender self a f.p.fee.amount B := Option.some.inj hb
+    refine ⟨a, _, ⟨hfu, ha, hfee, hoe⟩, by rw [hfu', fc_feeMsgs_native self f.p a hn ha hfee B hB], ?_, ?_, ?_, ?_⟩
     · simp [sumAmounts, Msg.amount]; omega
     · simp [sumAmounts, Msg.amount]; omega
     · intro _
@@ -553,48 +551,62 @@ theorem C08_fee_disposed (w : World) (self : Addr) (f : Factory) (m : CreateMsg)
       refine ⟨rfl, by simp [sumAmounts, Msg.amount], ?_⟩
       simp [post, hbs']
 
-/-- balances after a **native-fee** create (payer, factory and pool pairwise distinct accounts): the payer loses exactly
-what it attached, the factory keeps the overpayment `paid − fee` (zero for the open-edition factory), the pool gains
-`fee − burnPart fee`, the supply shrinks by `burnPart fee` (so `supply − pool` falls by exactly the fee, whatever the split),
-nothing else moves. -/
+/-- balances after a **native-fee** create (payer, factory and pool pairwise distinct accounts), with `B = burnPart fee` the
+burned part: the payer loses exactly what it attached, the factory keeps the overpayment `paid − fee` (zero for the
+open-edition factory), the pool gains `fee − B`, the supply shrinks by `B` — so `supply − pool` falls by exactly the fee,
+whatever the split (`C08_fee_net_native`) —, nothing else moves. -/
 theorem C08_fee_balances_native (w : World) (self : Addr) (f : Factory) (m : CreateMsg) (w' : World)
     (hf : w.factory? self = some f) (h : create w self m = .ok w') (hn : f.p.fee.denom = NATIVE)
-    (h1 : m.sender ≠ self) (h2 : m.sender ≠ FAIRBURN_POOL) (h3 : self ≠ FAIRBURN_POOL) :
-    ∃ a, m.funds = [⟨NATIVE, a⟩] ∧ f.p.fee.amount ≤ a
+    (h1 : m.sender ≠ self) (h2 : m.sender ≠ FAIRBURN_POOL) (h3 : self ≠ FAIRBURN_POOL)
+    (B : Nat) (hB : B = burnPart f.p.fee.amount) :
+    ∃ a, m.funds = [⟨NATIVE, a⟩] ∧ f.p.fee.amount ≤ a ∧ B ≤ f.p.fee.amount
       ∧ w'.bal m.sender NATIVE = w.bal m.sender NATIVE - a ∧ a ≤ w.bal m.sender NATIVE
       ∧ w'.bal self NATIVE = w.bal self NATIVE + (a - f.p.fee.amount)
-      ∧ w'.bal FAIRBURN_POOL NATIVE = w.bal FAIRBURN_POOL NATIVE + (f.p.fee.amount - burnPart f.p.fee.amount)
-      ∧ w'.supply NATIVE = w.supply NATIVE - burnPart f.p.fee.amount
+      ∧ w'.bal FAIRBURN_POOL NATIVE = w.bal FAIRBURN_POOL NATIVE + (f.p.fee.amount - B)
+      ∧ w'.supply NATIVE = w.supply NATIVE - B
       ∧ (∀ x d, ¬ (d = NATIVE ∧ (x = m.sender ∨ x = self ∨ x = FAIRBURN_POOL)) → w'.bal x d = w.bal x d)
       ∧ (∀ d, d ≠ NATIVE → w'.supply d = w.supply d) := by
-  obtain ⟨a, msgs, hp, _, _, _, hnat, _⟩ := C08_fee_disposed w self f m w' hf h
+  obtain ⟨a, msgs, hp, _, _, _, hnat, _⟩ := C08_fee_disposed w self f m w' hf h B hB
   obtain ⟨_, _, hb⟩ := hnat hn
   obtain ⟨hfu, ha, hfee, _⟩ := hp
-  obtain ⟨_, _, _, _, _, _, _, _, _, _, hfund⟩ := (C08_create_ok_iff w self f m hf).1 ⟨w', h⟩
-  have hbal : w'.bal = (bankNative w.bal w.supply m.sender self a f.p.fee.amount).1 := by rw [← hb]
-  have hsup : w'.supply = (bankNative w.bal w.supply m.sender self a f.p.fee.amount).2 := by rw [← hb]
+  have hble : B ≤ f.p.fee.amount := by rw [hB]; exact fc_burnPart_le _
+  have hbal : w'.bal = (bankNativeB w.bal w.supply m.sender self a f.p.fee.amount B).1 := by rw [← hb]
+  have hsup : w'.supply = (bankNativeB w.bal w.supply m.sender self a f.p.fee.amount B).2 := by rw [← hb]
   have hle : a ≤ w.bal m.sender NATIVE := by
-    have : Paid f.p m.funds a := ⟨hfu, ha, hfee, by assumption⟩
     obtain ⟨mk, a', _, _, _, _, hp', _, _, _, hf'⟩ := (C08_create_ok_iff w self f m hf).1 ⟨w', h⟩
     have : a' = a := by
       have e := hp'.1; rw [hfu] at e; simp at e; exact e.symm
     subst this
     rw [← hn]; exact hf'.1
-  refine ⟨a, by rw [← hn]; exact hfu, hfee, ?_, hle, ?_, ?_, ?_, ?_, ?_⟩
-  · rw [hbal]; simp [bankNative, bankNativeB, credit, debit, h1, h2]
-  · rw [hbal]; simp [bankNative, bankNativeB, credit, debit, h3, Ne.symm h1]; omega
-  · rw [hbal]; simp [bankNative, bankNativeB, credit, debit, Ne.symm h2, Ne.symm h3]
-  · rw [hsup]; simp [bankNative, bankNativeB]
+  refine ⟨a, by rw [← hn]; exact hfu, hfee, hble, ?_, hle, ?_, ?_, ?_, ?_, ?_⟩
+  · rw [hbal]; simp [bankNativeB, credit, debit, h1, h2]
+  · rw [hbal]; simp [bankNativeB, credit, debit, h3, Ne.symm h1]; omega
+  · rw [hbal]; simp [bankNativeB, credit, debit, Ne.symm h2, Ne.symm h3]
+  · rw [hsup]; simp [bankNativeB]
   · intro x d hx
     rw [hbal]
-    simp only [bankNative, bankNativeB, credit, debit]
+    simp only [bankNativeB, credit, debit]
     by_cases hd : d = NATIVE
     · have hx' : x ≠ m.sender ∧ x ≠ self ∧ x ≠ FAIRBURN_POOL := by
         refine ⟨fun e => hx ⟨hd, Or.inl e⟩, fun e => hx ⟨hd, Or.inr (Or.inl e)⟩, fun e => hx ⟨hd, Or.inr (Or.inr e)⟩⟩
       simp [hx'.1, hx'.2.1, hx'.2.2]
     · simp [hd]
   · intro d hd
-    rw [hsup]; simp [bankNative, bankNativeB, hd]
+    rw [hsup]; simp [bankNativeB, hd]
+
+/-- **split-independent form** (what the harness compares): after a native-fee create, `supply − pool` has fallen by exactly
+the fee — the burned part leaves the supply, the rest enters the pool — provided the pool held no more than the supply before
+(it is part of it). Whatever `FEE_BURN_PERCENT` is. -/
+theorem C08_fee_net_native (w : World) (self : Addr) (f : Factory) (m : CreateMsg) (w' : World)
+    (hf : w.factory? self = some f) (h : create w self m = .ok w') (hn : f.p.fee.denom = NATIVE)
+    (h1 : m.sender ≠ self) (h2 : m.sender ≠ FAIRBURN_POOL) (h3 : self ≠ FAIRBURN_POOL)
+    (hinv : w.bal FAIRBURN_POOL NATIVE + f.p.fee.amount ≤ w.supply NATIVE) :
+    w'.supply NATIVE - w'.bal FAIRBURN_POOL NATIVE + f.p.fee.amount = w.supply NATIVE - w.bal FAIRBURN_POOL NATIVE := by
+  obtain ⟨a, _, _, hble, _, _, _, hpool, hsup, _, _⟩ :=
+    C08_fee_balances_native w self f m w' hf h hn h1 h2 h3 (burnPart f.p.fee.amount) rfl
+  rw [hpool, hsup]
+  generalize burnPart f.p.fee.amount = B at hble ⊢
+  omega
 
 /-- balances after a **non-native-fee** create (payer, factory, DAO pairwise distinct): the payer loses what it attached,
 all of it arrives at the launchpad DAO, the factory keeps nothing, no supply changes. -/
@@ -607,7 +619,7 @@ theorem C08_fee_balances_other (w : World) (self : Addr) (f : Factory) (m : Crea
       ∧ w'.bal LAUNCHPAD_DAO f.p.fee.denom = w.bal LAUNCHPAD_DAO f.p.fee.denom + a
       ∧ w'.supply = w.supply
       ∧ (∀ x d, ¬ (d = f.p.fee.denom ∧ (x = m.sender ∨ x = LAUNCHPAD_DAO)) → w'.bal x d = w.bal x d) := by
-  obtain ⟨a, msgs, hp, _, _, _, _, hoth⟩ := C08_fee_disposed w self f m w' hf h
+  obtain ⟨a, msgs, hp, _, _, _, _, hoth⟩ := C08_fee_disposed w self f m w' hf h _ rfl
   obtain ⟨_, _, hb⟩ := hoth hn
   obtain ⟨hfu, ha, hfee, _⟩ := hp
   have hbal : w'.bal = (bankOther w.bal w.supply m.sender self f.p.fee.denom a).1 := by rw [← hb]
@@ -1035,6 +1047,284 @@ theorem C08_native_fee_split_at_50 (F : Nat) (h50 : Gen.sg1_FEE_BURN_PERCENT = 5
   rw [h50]
   omega
 
+/-! ### Round 3: history-level statements with content of their own
+
+`C08_create_ok_iff` is an iff between the Boolean conjunction the model executes and its readable `Prop` form, and
+`C08_reject_nothing` holds by construction of `step'` (transaction atomicity is an assumption about the chain, validated by the
+harness, not proved). The theorems below are inductions over arbitrary operation lists and say things no single definition
+says: the registry is exact, only `CreateMinter` creates, only `UpdatePerAddressLimit` moves a limit, and every minter that
+exists in any reachable world came from a `CreateMinter` that was ACCEPTED in the world of that moment (hence satisfied every
+necessary condition of `C08_create_only_if` against the governance parameters in force THEN). -/
+
+/-- the registry is exact: as many registry entries as addresses handed out; every minter has exactly one collection; the
+registry consists of the factories, the whitelists, and one minter + one collection per creation — nothing else -/
+structure RInv (w : World) : Prop where
+  count : w.contracts.length = w.next
+  pairs : w.minters.length = w.collections.length
+  total : w.contracts.length = w.factories.length + w.whitelists.length + 2 * w.minters.length
+
+theorem fc_rinv_step (w : World) (op : Op) (h : RInv w) : RInv (step' w op) := by
+  obtain ⟨h1, h2, h3⟩ := h
+  cases op with
+  | time t => exact ⟨h1, h2, h3⟩
+  | fund who d amt => exact ⟨h1, h2, h3⟩
+  | mkFactory p =>
+    refine ⟨?_, h2, ?_⟩ <;> simp only [step', step, List.length_append, List.length_cons, List.length_nil] <;> omega
+  | updateParams fa u =>
+    unfold step'
+    simp only [step]
+    cases hf : w.factory? fa with
+    | none => exact ⟨h1, h2, h3⟩
+    | some f =>
+      cases hu : applyUpdate f.p u with
+      | error e => simp only [hu]; exact ⟨h1, h2, h3⟩
+      | ok p' => simp only [hu]; exact ⟨h1, h2, by simp only [List.length_map]; exact h3⟩
+  | mkWl flex s e ok poolD supD =>
+    unfold step'
+    simp only [step]
+    cases ok with
+    | false => exact ⟨h1, h2, h3⟩
+    | true =>
+      refine ⟨?_, h2, ?_⟩ <;> simp only [if_true, List.length_append, List.length_cons, List.length_nil] <;> omega
+  | create self m =>
+    unfold step'
+    simp only [step]
+    cases hcr : create w self m with
+    | error e => exact ⟨h1, h2, h3⟩
+    | ok w' =>
+      cases hf : w.factory? self with
+      | none => exact absurd ⟨w', hcr⟩ (C08_no_factory w self m hf)
+      | some f =>
+        obtain ⟨_, mk, creator, bs, _, _, _, rfl⟩ := fc_create_ok w self f m w' hf hcr
+        refine ⟨?_, ?_, ?_⟩ <;>
+          simp only [post, List.length_append, List.length_cons, List.length_nil] <;> omega
+  | setLimit ma sender funds l =>
+    unfold step'
+    simp only [step]
+    cases hs : setLimit w ma sender funds l with
+    | error e => exact ⟨h1, h2, h3⟩
+    | ok w' =>
+      have hpost := C08_update_limit_post w ma sender funds l w' hs
+      subst hpost
+      exact ⟨h1, by simp only [List.length_map]; exact h2, by simp only [List.length_map]; exact h3⟩
+
+/-- **"exactly one new minter and one new collection", over all histories**: after every finite sequence of operations the
+registry holds exactly `next` contracts, there are as many collections as minters, and
+`#contracts = #factories + #whitelists + 2·#minters` — no operation ever leaves a stray contract behind. -/
+theorem C08_history_registry_exact (ops : List Op) : RInv (run {} ops) := by
+  have gen : ∀ (ops : List Op) (w : World), RInv w → RInv (run w ops) := by
+    intro ops
+    induction ops with
+    | nil => intro w h; exact h
+    | cons op t ih => intro w h; exact ih _ (fc_rinv_step w op h)
+  exact gen ops _ ⟨rfl, rfl, rfl⟩
+
+/-- **only `CreateMinter` creates**: every operation other than a create leaves the set of minter addresses and the collections
+exactly as they were (governance, clock, funding, whitelist creation, limit updates, rejected creates included — a rejected
+create is `step'` = identity) -/
+theorem C08_only_create_creates (w : World) (op : Op) (h : ∀ f m, op ≠ .create f m) :
+    (step' w op).minters.map (·.addr) = w.minters.map (·.addr) ∧ (step' w op).collections = w.collections := by
+  cases op with
+  | time t => exact ⟨rfl, rfl⟩
+  | fund who d amt => exact ⟨rfl, rfl⟩
+  | mkFactory p => exact ⟨rfl, rfl⟩
+  | updateParams fa u =>
+    have := C08_governance_frame w fa u
+    exact ⟨by rw [this.2.1], this.2.2.1⟩
+  | mkWl flex s e ok poolD supD =>
+    unfold step'
+    simp only [step]
+    cases ok <;> exact ⟨rfl, rfl⟩
+  | create self m => exact absurd rfl (h self m)
+  | setLimit ma sender funds l =>
+    unfold step'
+    simp only [step]
+    cases hs : setLimit w ma sender funds l with
+    | error e => exact ⟨rfl, rfl⟩
+    | ok w' =>
+      have hpost := C08_update_limit_post w ma sender funds l w' hs
+      subst hpost
+      refine ⟨?_, rfl⟩
+      simp only [List.map_map]
+      apply List.map_congr_left
+      intro x _
+      simp only [Function.comp]
+      split <;> rfl
+
+/-- **only `UpdatePerAddressLimit` moves a limit**: under every other operation every existing minter record — its limit, admin,
+factory, collection, token count — is still there unchanged -/
+theorem C08_limit_only_by_update (w : World) (op : Op) (h : ∀ ma s fu l, op ≠ .setLimit ma s fu l) :
+    ∀ mt ∈ w.minters, mt ∈ (step' w op).minters := by
+  intro mt hmt
+  cases op with
+  | time t => exact hmt
+  | fund who d amt => exact hmt
+  | mkFactory p => exact hmt
+  | updateParams fa u => rw [(C08_governance_frame w fa u).2.1]; exact hmt
+  | mkWl flex s e ok poolD supD =>
+    unfold step'
+    simp only [step]
+    cases ok <;> exact hmt
+  | create self m =>
+    unfold step'
+    simp only [step]
+    cases hcr : create w self m with
+    | error e => exact hmt
+    | ok w' =>
+      cases hf : w.factory? self with
+      | none => exact absurd ⟨w', hcr⟩ (C08_no_factory w self m hf)
+      | some f =>
+        obtain ⟨_, mk, creator, bs, _, _, _, rfl⟩ := fc_create_ok w self f m w' hf hcr
+        exact List.mem_append_left _ hmt
+  | setLimit ma sender funds l => exact absurd rfl (h ma sender funds l)
+
+/-- an accepted limit update moves nothing but that limit: registry, factories, whitelists, collections, every balance, the
+supply and the clock are untouched; a rejected one is the identity -/
+theorem C08_update_limit_frame (w : World) (ma sender : Addr) (funds : List Coin) (l : Nat) :
+    let w' := step' w (.setLimit ma sender funds l)
+    w'.contracts = w.contracts ∧ w'.factories = w.factories ∧ w'.whitelists = w.whitelists
+    ∧ w'.collections = w.collections ∧ w'.bal = w.bal ∧ w'.supply = w.supply ∧ w'.next = w.next ∧ w'.now = w.now := by
+  simp only [step', step]
+  cases hs : setLimit w ma sender funds l with
+  | error e => exact ⟨rfl, rfl, rfl, rfl, rfl, rfl, rfl, rfl⟩
+  | ok w' =>
+    have hpost := C08_update_limit_post w ma sender funds l w' hs
+    subst hpost
+    exact ⟨rfl, rfl, rfl, rfl, rfl, rfl, rfl, rfl⟩
+
+/-- where does a minter of the next world come from: it was there before (same address, same factory), or this very operation
+is a `CreateMinter` that was accepted in `w` and made it -/
+theorem fc_minter_origin (w : World) (op : Op) :
+    ∀ mt ∈ (step' w op).minters,
+      (∃ mt0 ∈ w.minters, mt0.addr = mt.addr ∧ mt0.factory = mt.factory)
+      ∨ (∃ f m w', op = .create f m ∧ create w f m = .ok w' ∧ mt.addr = minterAddr w ∧ mt.factory = f) := by
+  intro mt hmt
+  cases op with
+  | time t => exact Or.inl ⟨mt, hmt, rfl, rfl⟩
+  | fund who d amt => exact Or.inl ⟨mt, hmt, rfl, rfl⟩
+  | mkFactory p => exact Or.inl ⟨mt, hmt, rfl, rfl⟩
+  | updateParams fa u => rw [(C08_governance_frame w fa u).2.1] at hmt; exact Or.inl ⟨mt, hmt, rfl, rfl⟩
+  | mkWl flex s e ok poolD supD =>
+    unfold step' at hmt
+    simp only [step] at hmt
+    cases ok <;> exact Or.inl ⟨mt, hmt, rfl, rfl⟩
+  | create self m =>
+    unfold step' at hmt
+    simp only [step] at hmt
+    cases hcr : create w self m with
+    | error e => rw [hcr] at hmt; exact Or.inl ⟨mt, hmt, rfl, rfl⟩
+    | ok w' =>
+      rw [hcr] at hmt
+      cases hf : w.factory? self with
+      | none => exact absurd ⟨w', hcr⟩ (C08_no_factory w self m hf)
+      | some f =>
+        obtain ⟨_, mk, creator, bs, _, _, _, hw'⟩ := fc_create_ok w self f m w' hf hcr
+        subst hw'
+        simp only [post, List.mem_append, List.mem_singleton] at hmt
+        rcases hmt with hmt | rfl
+        · exact Or.inl ⟨mt, hmt, rfl, rfl⟩
+        · refine Or.inr ⟨self, m, _, rfl, hcr, ?_, ?_⟩ <;> (unfold minterRec; cases mk.family <;> rfl)
+  | setLimit ma sender funds l =>
+    unfold step' at hmt
+    simp only [step] at hmt
+    cases hs : setLimit w ma sender funds l with
+    | error e => rw [hs] at hmt; exact Or.inl ⟨mt, hmt, rfl, rfl⟩
+    | ok w' =>
+      rw [hs] at hmt
+      have hpost := C08_update_limit_post w ma sender funds l w' hs
+      subst hpost
+      obtain ⟨x, hx, rfl⟩ := List.mem_map.1 hmt
+      refine Or.inl ⟨x, hx, ?_, ?_⟩ <;> (split <;> rfl)
+
+theorem fc_run_append (w : World) (a b : List Op) : run w (a ++ b) = run (run w a) b := by
+  simp [run, List.foldl_append]
+
+/-- **Provenance, over all histories ("a factory creates a minter ONLY IF …").** Every minter that exists after any finite
+sequence of operations was made by a `CreateMinter` op of that sequence which was ACCEPTED in the world reached by the
+operations before it, sent to the factory the minter points at, and the minter's address is the one allocated then. Together
+with `C08_create_only_if` / `C08_create_ok_iff` applied to that prefix world: not frozen THEN, collection code allow-listed
+THEN, fee attached, sale parameters within the governance bounds in force THEN — whatever governance did before or after. -/
+theorem C08_history_provenance (ops : List Op) :
+    ∀ mt ∈ (run {} ops).minters, ∃ pre post f m w',
+      ops = pre ++ Op.create f m :: post ∧ create (run {} pre) f m = .ok w'
+      ∧ mt.addr = minterAddr (run {} pre) ∧ mt.factory = f := by
+  have gen : ∀ (n : Nat) (ops : List Op), ops.length = n →
+      ∀ mt ∈ (run {} ops).minters, ∃ pre post f m w',
+        ops = pre ++ Op.create f m :: post ∧ create (run {} pre) f m = .ok w'
+        ∧ mt.addr = minterAddr (run {} pre) ∧ mt.factory = f := by
+    intro n
+    induction n with
+    | zero =>
+      intro ops hl mt hmt
+      have : ops = [] := List.eq_nil_of_length_eq_zero hl
+      subst this
+      cases hmt
+    | succ k ih =>
+      intro ops hl mt hmt
+      rcases List.eq_nil_or_concat ops with h0 | ⟨L, b, hLb⟩
+      · subst h0; cases hmt
+      · have hLb' : ops = L ++ [b] := by simpa using hLb
+        subst hLb'
+        have hlen : L.length = k := by simp at hl; omega
+        rw [fc_run_append] at hmt
+        have hstep : run (run {} L) [b] = step' (run {} L) b := rfl
+        rw [hstep] at hmt
+        rcases fc_minter_origin (run {} L) b mt hmt with ⟨mt0, hmt0, ha, hfa⟩ | ⟨f, m, w', hb, hc, ha, hfa⟩
+        · obtain ⟨pre, post, f, m, w', hops, hc, ha0, hf0⟩ := ih L hlen mt0 hmt0
+          refine ⟨pre, post ++ [b], f, m, w', ?_, hc, ?_, ?_⟩
+          · rw [hops]; simp
+          · rw [← ha]; exact ha0
+          · rw [← hfa]; exact hf0
+        · subst hb
+          exact ⟨L, [], f, m, w', rfl, hc, ha, hfa⟩
+  exact gen ops.length ops rfl
+
+/-- the same, spelled out: the factory that made any minter of any reachable world was not frozen at that moment, had the
+collection's code on its allow-list, and was paid at least its fee in its fee denom (exactly, for the open-edition factory) -/
+theorem C08_history_created_within_rules (ops : List Op) :
+    ∀ mt ∈ (run {} ops).minters, ∃ pre post m fac,
+      ops = pre ++ Op.create mt.factory m :: post ∧ (run {} pre).factory? mt.factory = some fac
+      ∧ fac.p.frozen = false ∧ m.sg721Code ∈ fac.p.allowed
+      ∧ (∃ a, m.funds = [⟨fac.p.fee.denom, a⟩] ∧ fac.p.fee.amount ≤ a ∧ (fac.p.kind = .openEdition → a = fac.p.fee.amount))
+      ∧ SaleWithin fac.p (run {} pre).now m := by
+  intro mt hmt
+  obtain ⟨pre, post, f, m, w', hops, hc, _, hf⟩ := C08_history_provenance ops mt hmt
+  subst hf
+  cases hfac : (run {} pre).factory? mt.factory with
+  | none => exact absurd ⟨w', hc⟩ (C08_no_factory _ _ m hfac)
+  | some fac =>
+    obtain ⟨h1, h2, h3, h4, _⟩ := C08_create_only_if (run {} pre) mt.factory fac m w' hfac hc
+    exact ⟨pre, post, m, fac, hops, hfac, h1, h2, h3, h4⟩
+
+/-! ### Round 3: "administered by the creator named in the request" — the literal clause and what is true
+
+FULL literal clause (NOT provable — the unchanged code contradicts it, see `C08_post_admin_counterexample`):
+
+    every administrator of the new minter is the creator named in the request, i.e. for a successful create
+    `mt.admin = some creator ∧ mi.admin = some creator ∧ ci.admin = some creator ∧ cl.creator = creator`
+    (minter `Config.admin`, minter wasm/migration admin, collection wasm admin, collection creator).
+
+All four factories build `WasmMsg::Instantiate { admin: Some(info.sender.to_string()), … }`: the minter's wasm (migration)
+admin is the SENDER of `CreateMinter`. It is the creator only when the creator sends the message himself. -/
+
+/-- what holds: the creator named in the request is the minter's `Config.admin` (every family but the base minter, which has
+none), the collection's creator and the collection's wasm admin; the minter's wasm admin is the sender — hence the creator
+exactly when `sender = creator`. -/
+theorem C08_post_admin_partial (w : World) (self : Addr) (f : Factory) (m : CreateMsg) (w' : World)
+    (hf : w.factory? self = some f) (h : create w self m = .ok w') :
+    ∃ (mi ci : ContractInfo) (mt : Minter) (cl : Collection) (creator : Addr),
+      m.creator = some creator
+      ∧ w'.contracts = w.contracts ++ [mi, ci] ∧ w'.minters = w.minters ++ [mt] ∧ w'.collections = w.collections ++ [cl]
+      ∧ (mt.kind.family ≠ .base → mt.admin = some creator) ∧ ci.admin = some creator ∧ cl.creator = creator
+      ∧ mi.admin = some m.sender ∧ (mi.admin = some creator ↔ m.sender = creator) := by
+  obtain ⟨mi, ci, mt, cl, creator, h1, h2, h3, h4, _, _, _, _, _, _, _, _, _, h14, _, _, h17, _, _, _, _, h22, _, _, h25⟩ :=
+    C08_post_wiring w self f m w' hf h
+  refine ⟨mi, ci, mt, cl, creator, h1, h2, h3, h4, h22, h17, h25, h14, ?_⟩
+  rw [h14]
+  constructor
+  · intro e; exact Option.some.inj e
+  · intro e; rw [e]
+
 /-! ## Non-vacuity: concrete worlds in which the hypotheses above hold -/
 
 def exParams : Params :=
@@ -1055,13 +1345,26 @@ example : (create exWorld 1000 { exMsg with perAddr := 6 }).isOk = false := by d
 example : (create (step' exWorld (.updateParams 1000 { maxPerAddr := some 6 })) 1000 { exMsg with perAddr := 6 }).isOk = false := by
   decide
 example : (create (step' exWorld (.updateParams 1000 { frozen := some true })) 1000 exMsg).isOk = false := by decide
-/-- balances of the example: payer −12, factory keeps the overpayment 2, pool +5, supply −5 -/
+/-- balances of the example: payer −12, factory keeps the overpayment 2, `supply − pool` falls by the fee 10 (1000 → 990) —
+stated without the burn/pool split, which is C06's -/
 example : ((run exWorld [.create 1000 exMsg]).bal 10 0, (run exWorld [.create 1000 exMsg]).bal 1000 0,
-    (run exWorld [.create 1000 exMsg]).bal FAIRBURN_POOL 0, (run exWorld [.create 1000 exMsg]).supply 0)
-    = (988, 2, 5, 995) := by decide
+    (run exWorld [.create 1000 exMsg]).supply 0 - (run exWorld [.create 1000 exMsg]).bal FAIRBURN_POOL 0)
+    = (988, 2, 990) := by decide
 /-- the created minter (address 1001) accepts limit 5 from its admin 13, rejects 6, and rejects a stranger -/
 example : (setLimit (run exWorld [.create 1000 exMsg]) 1001 13 [] 5).isOk = true := by decide
 example : (setLimit (run exWorld [.create 1000 exMsg]) 1001 13 [] 6).isOk = false := by decide
 example : (setLimit (run exWorld [.create 1000 exMsg]) 1001 10 [] 1).isOk = false := by decide
+
+/-- **Counter-example to the literal clause** (replayed on the real contracts: corpus/C08/minter-wasm-admin-is-payer.json):
+account 10 pays `CreateMinter` naming creator 13. The create is accepted; the new minter (address 1001) has `Config.admin` 13
+but wasm admin 10 ≠ 13: the payer may migrate the creator's minter, the creator may not. -/
+theorem C08_post_admin_counterexample :
+    exMsg.sender = 10 ∧ exMsg.creator = some 13
+    ∧ (create exWorld 1000 exMsg).isOk = true
+    ∧ ((run exWorld [.create 1000 exMsg]).minter? 1001).map (·.admin) = some (some 13)
+    ∧ ((run exWorld [.create 1000 exMsg]).contract? 1001).map (·.admin) = some (some 10)
+    ∧ mayMigrate (run exWorld [.create 1000 exMsg]) 1001 10 = true
+    ∧ mayMigrate (run exWorld [.create 1000 exMsg]) 1001 13 = false := by
+  decide
 
 end LP
